@@ -92,7 +92,17 @@ func (p *storProxy) Put(a oid.Address, b []byte) error {
 	if e := verdictErr(p.g("put", a)); e != nil {
 		return e
 	}
-	return p.Storage.Put(a, b)
+	err := p.Storage.Put(a, b)
+	p.post("put", a)
+	return err
+}
+
+// post is a second gate after a mutating call: the boundary "this component step is done,
+// the next one has not started" (only when a run asks for it).
+func (p *storProxy) post(op string, a oid.Address) {
+	if p.w.postGates {
+		p.w.k.Gate("blob:" + op + "-done:" + short(a))
+	}
 }
 
 func (p *storProxy) PutBatch(m map[oid.Address][]byte) error {
@@ -111,7 +121,9 @@ func (p *storProxy) Delete(a oid.Address) error {
 	if e := verdictErr(p.g("delete", a)); e != nil {
 		return e
 	}
-	return p.Storage.Delete(a)
+	err := p.Storage.Delete(a)
+	p.post("delete", a)
+	return err
 }
 
 func (p *storProxy) Get(a oid.Address) (*object.Object, error) {
@@ -215,7 +227,11 @@ func (p *wcProxy) Put(a oid.Address, o *object.Object, b []byte) error {
 
 func (p *wcProxy) Delete(a oid.Address) error {
 	p.g("delete", a)
-	return p.Cache.Delete(a)
+	err := p.Cache.Delete(a)
+	if p.w.postGates {
+		p.w.k.Gate("wc:delete-done:" + short(a))
+	}
+	return err
 }
 
 func (p *wcProxy) Get(a oid.Address) (*object.Object, error) {
@@ -320,6 +336,7 @@ type shWorld struct {
 	expiredSeen int
 	mf          modeFaults // component failures injected into mode switches
 	touched     map[int]bool
+	postGates   bool // park also after mutating component calls
 }
 
 func newShWorld(r *simkit.R, cfg shCfg, nids int) *shWorld {
@@ -612,6 +629,7 @@ type shOp struct {
 	done bool
 
 	started bool
+	inWC    bool // (deletions) the object was in the write-cache when the operation started
 }
 
 func (o *shOp) String() string { return fmt.Sprintf("%s(o%d)", o.kind, o.id) }
@@ -625,8 +643,10 @@ func (w *shWorld) exec(op *shOp) {
 		obj := w.u.Build(w.u.Specs[op.id])
 		op.err = s.Put(obj, w.bin(op.id))
 	case "mark":
+		_, op.inWC = w.physical(op.id)
 		op.err = s.MarkGarbage(a.Container(), []oid.ID{a.Object()}, meta.GarbageMarkDefault)
 	case "drop":
+		_, op.inWC = w.physical(op.id)
 		op.err = s.Delete(a.Container(), []oid.ID{a.Object()})
 	case "get":
 		o, err := s.Get(a, false)
@@ -710,6 +730,7 @@ func runC15(r *simkit.R) {
 	nreg := 3 + r.Intn(4)
 	w := newShWorld(r, cfg, nreg+4)
 	w.layoutSimple(nreg, 2, 2, func() int { return []int{0, 40, 250, 700, 2500}[r.Intn(5)] })
+	w.postGates = true
 	w.open(w.dir)
 	r.OnCleanup(func() { w.close() })
 	r.Logf("config %s", cfg)
@@ -746,7 +767,7 @@ func runC15(r *simkit.R) {
 		}
 		sn := snap{dir: w.snapshot("c"), at: at, busy: w.k.Live() > 0 || len(w.k.Parked()) > 0}
 		for _, op := range ops {
-			if op.started && !op.done && (op.kind == "drop" || op.kind == "mark") {
+			if op.started && !op.done && (op.kind == "drop" || op.kind == "mark") && op.inWC {
 				sn.at += fmt.Sprintf(" {deleting o%d}", op.id)
 			}
 		}
@@ -846,17 +867,20 @@ func (w *shWorld) verifyCrashImage(dir, at string, ops []*shOp) {
 				// the garbage collector deletes marked addresses on its own schedule: a put of an
 				// address whose removal was requested earlier races with that deletion as well
 				{
-					hasPut, hasRemoval := false, false
+					// (only a put that had not returned when the removal was invoked can meet that
+					// asynchronous deletion)
 					for _, p := range ops {
-						if p.kind == "put" && p.id == id && p.started {
-							hasPut = true
+						if p.kind != "put" || p.id != id || !p.started {
+							continue
 						}
-						if p.started && ((p.kind == "mark" || p.kind == "drop") && p.id == id || p.kind == "tomb" && w.u.Specs[p.id].Target == id) {
-							hasRemoval = true
+						for _, d := range ops {
+							if !d.started || !(d.kind == "mark" && d.id == id || d.kind == "tomb" && w.u.Specs[d.id].Target == id) {
+								continue
+							}
+							if tag == "" && d.call > 0 && (!p.done || d.call < p.ret) {
+								tag = " [put raced with a delete of the same address]"
+							}
 						}
-					}
-					if hasPut && hasRemoval && tag == "" {
-						tag = " [put raced with a delete of the same address]"
 					}
 				}
 				for _, p := range ops {
